@@ -160,21 +160,56 @@ def build_harness(name, harness_srcs, flavour="faithful", extra_flags=(), repo_s
     return exe
 
 # ------------------------------------------------------------------------------------------------
-def run_translator():
-    """tools/translate_tables.py, then every tools/translators/*.py (each writes coq/theories/Generated_<name>.v
-    from /repo's working tree and fails closed with a non-zero status); then _CoqProject is brought up to date."""
-    msgs, rc = [], 0
+def translator_scripts():
     scripts = [os.path.join(VERIF, "tools", "translate_tables.py")]
     tdir = os.path.join(VERIF, "tools", "translators")
     if os.path.isdir(tdir):
         scripts += [os.path.join(tdir, f) for f in sorted(os.listdir(tdir)) if f.endswith(".py")]
-    for sc in scripts:
+    return scripts
+
+def run_translator():
+    """tools/translate_tables.py, then every tools/translators/*.py (each writes coq/theories/Generated_<name>.v
+    from /repo's working tree and fails closed with a non-zero status); then _CoqProject is brought up to date.
+    Returns (status per script name, message)."""
+    msgs, status = [], {}
+    for sc in translator_scripts():
         p = run([sys.executable, sc])
-        if p.returncode != 0:
-            rc = p.returncode
+        status[os.path.basename(sc)] = p.returncode
         msgs.append(os.path.basename(sc) + ": " + (p.stdout + p.stderr).strip()[-600:])
     run([sys.executable, os.path.join(VERIF, "tools", "gen_coqproject.py")])
-    return rc, " | ".join(msgs)
+    return status, " | ".join(msgs)
+
+def translators_for(prop_file):
+    """the translators whose Generated*.v the given Properties file depends on (transitively, from coq_makefile's
+    dependency file): only THEIR failure is a broken obligation of this property"""
+    dep = os.path.join(COQDIR, ".Makefile.d")
+    graph = {}
+    try:
+        for line in open(dep):
+            if ".vo " not in line and not line.split(":")[0].strip().endswith(".vo"):
+                continue
+            lhs, _, rhs = line.partition(":")
+            tgt = [t for t in lhs.split() if t.endswith(".vo")]
+            if not tgt:
+                continue
+            name = os.path.basename(tgt[0])[:-3]
+            graph.setdefault(name, set()).update(os.path.basename(r)[:-3] for r in rhs.split() if r.endswith(".vo"))
+    except OSError:
+        return None
+    seen, todo = set(), [prop_file]
+    while todo:
+        n = todo.pop()
+        if n in seen:
+            continue
+        seen.add(n)
+        todo += list(graph.get(n, ()))
+    gens = {n for n in seen if n.startswith("Generated")}
+    out = []
+    for sc in translator_scripts():
+        txt = open(sc).read()
+        if any(re.search(r"\b" + re.escape(g) + r"\.v\b", txt) for g in gens):
+            out.append(os.path.basename(sc))
+    return out
 
 def coq_build(targets, timeout=1500):
     """make the given .vo targets (full .vo build). Returns (ok, log)."""
@@ -256,7 +291,10 @@ def build_extracted(driver_ml, out_name=None, modname=None, extract_v=None):
     if p.returncode != 0:
         raise BuildError("extraction failed\n" + (p.stdout + p.stderr)[-4000:])
     shutil.copy(os.path.join(EXTRACT, driver_ml), os.path.join(gen, driver_ml))
-    p = run(["ocamlfind", "ocamlopt", "-w", "-a", modname + ".mli", modname + ".ml", driver_ml, "-o", out_name], cwd=gen, timeout=900)
+    # a driver may ask for ocamlfind packages in a comment:  (* ocamlfind-flags: -package zarith -linkpkg *)
+    m = re.search(r"\(\*\s*ocamlfind-flags:\s*(.*?)\s*\*\)", open(os.path.join(EXTRACT, driver_ml)).read())
+    extra = m.group(1).split() if m else []
+    p = run(["ocamlfind", "ocamlopt"] + extra + ["-w", "-a", modname + ".mli", modname + ".ml", driver_ml, "-o", out_name], cwd=gen, timeout=900)
     if p.returncode != 0:
         raise BuildError("ocaml build failed\n" + (p.stdout + p.stderr)[-4000:])
     open(stamp, "w").write(key)
